@@ -15,6 +15,18 @@ CLAIMS = {
    text="Proof (Coq): for every 24-octet header announcing 1..30 flows and that many 48-octet records with ANY field values and ANY trailing octets, decode(encode h flows ++ trailing) returns the header fields and exactly those flows in wire order, every field its big-endian value (round trip against an encoder written from Cisco's documented format); any other version, count outside 1..30 or too few octets yields no flows; no datagram panics/hangs and flows <= 30 with 48 received octets each. The field sequences and JSON piece sequences are REGENERATED from netflow/v5/*.go on every run and Proofs/Tie.v re-proves them equal to the tables the proofs use; the hand-modelled control flow is tied by differential execution (Go Decode+JSONMarshal vs extracted model) plus an independent Python oracle that also parses the published JSON (dotted addresses, exact numbers).",
    note="Trusted: Coq kernel; translator for layouts/JSON pieces (tie re-proved each run); hand model of validate/decodeFlows/publish decision (correspondence); Spec/Nf5Wire.v; net.IP.String model (sampled). JSON well-formedness of the v5 output is proved under C05. Closed under the global context.",
    technique="Coq round-trip proof (decode o encode) over regenerated layouts + differential correspondence"),
+ "C01": dict(
+   text="Proof (Coq): for IPFIX and NetFlow v9, for EVERY history of (exporter address, payload) datagrams, every information model and every well-formed cache (hence every reachable cache; the initial cache is proved well-formed), the decode of every datagram returns Ok in the model's outcome monad, where Panic is what the model's checked primitives (Interpret's b[0]/BigEndian reads behind the minLen guard, shard indexing, nil shard/map access) yield exactly when Go would panic and Hang is fuel exhaustion; v5: every datagram is safe. sFlow is added under C07 (see notes). The hand models are tied to the code by differential execution on an adversarial stream (adversarial templates, boundary values in every 16/32-bit length field, truncation, flips, insertion/deletion), comparing outcome class and decoded content, with each datagram run under recover() and a watchdog.",
+   note="Trusted: Coq kernel; hand models Reader/Flow/Cache/Ipfix/Nf9/Nf5 (correspondence); that Go panics exactly where the model's checked primitives say (slice/index bounds, nil map write, nil pointer); JSON encoding functions are total in the model (tie: C05 correspondence). sFlow/packet decoders: correspondence only until C07's model lands. Closed under the global context.",
+   technique="Coq safety proof (Panic/Hang unreachable) by invariants over histories + differential correspondence on a malformed stream"),
+ "C02": dict(
+   text="Proof (Coq): every loop of the IPFIX/v9/v5 decoder models runs on explicit fuel S(length payload); the theorems show the fuel never runs out for any payload, cache and history (each iteration consumes at least one octet or exits), and that a datagram of n octets yields at most n records (v5: 48 octets per flow, at most 30). Allocation is not a theorem: the real code's TotalAlloc delta, record count and time per datagram are measured on the adversarial stream against a linear bound (256*octets+32KiB).",
+   note="Partial: the memory bound is measured on the implementation (runtime.MemStats), not proved; the proof covers termination and record counts. Trusted as for C01.",
+   technique="Coq progress/termination proof with explicit fuel + measured allocation bound on the implementation"),
+ "C04": dict(
+   text="Proof (Coq): the specification is a map keyed by the full (exporter address, template id) (latest-insertion and frame lemmas); the concrete 32-shard, FNV-indexed cache refines it (insert/retrieve, via injectivity of the address||id key); the IPFIX and v9 decoders are proved parametric in the cache, so on EVERY history the outputs against the concrete cache equal the outputs against the abstract map; exporter isolation: an exporter's outputs within any history equal its outputs when its datagrams are decoded alone; unknown template => no records + non-fatal report. Tie: multi-exporter histories (overlapping ids, re-announcements, data before/after announcement, 4/16-byte forms, near-identical IPv6 exporters, FNV-colliding pairs found by a seeded birthday search) against the real decoders and caches, plus an independent Python oracle.",
+   note="Trusted: Coq kernel; hand models (correspondence); hash/fnv modelled in Cache.v (sampled through shard selection only - after the fix the hash no longer affects lookup results); the Go map is modelled as an association list. Closed under the global context.",
+   technique="Coq refinement proof (concrete sharded cache vs abstract map) lifted to histories by a parametricity lemma + differential correspondence"),
 }
 REASON_TODO = "check under construction in this build session (not yet claimed)"
 props = [json.loads(l) for l in open(os.path.join(ROOT, "properties.jsonl"))]
